@@ -8,7 +8,8 @@
 //
 //	world                                     reset the receiver (first op of a case)
 //	p  <enc> <hash> <L|F|E> <rehash> <child>* a node of the receiver's previous state (its node DB)
-//	blk <hash> <statehash> <count> <prevstatehash|-> <prevcomputed 0|1> <status 0..5> <round>   the block to be synced
+//	blk <hash> <statehash> <count> <prevstatehash|-|@> <prevcomputed 0|1> <status 0..5> <round>   the block to be synced
+//	                                          (@ = its previous block is the block handled just before, as it stands: unsaved)
 //	cs <block> <root> [honest]                start a change set (bsc.Block, bsc.Hash)
 //	n  <enc> <hash> <L|F|E> <rehash> <child>* a node of the change set, in order
 //	decode                                    UnmarshalJSON + ComputeProperties          -> ok | decode-err
@@ -194,7 +195,15 @@ func (rc *receiver) do(w []string) (out string) {
 		b.ClientStateHash = sh
 		b.StateChangesCount = count
 		b.SetStateStatus(int8(status))
-		if w[4] != "-" {
+		if w[4] == "@" {
+			// the previous block is the block this receiver handled last, exactly as it stands (synced in memory,
+			// rejected, …): nothing of it has been saved to the node DB
+			if rc.b == nil {
+				return "bad-op"
+			}
+			b.PrevBlock = rc.b
+			b.PrevHash = rc.b.Hash
+		} else if w[4] != "-" {
 			ph, err := hex.DecodeString(w[4])
 			if err != nil {
 				return "bad-op"
@@ -372,6 +381,7 @@ type world struct {
 	nodes     [][]byte // the honest change set, in the order NewBlockStateChange gives
 	wireBlock string
 	wireRoot  string
+	next      []*world // the following blocks, each executed on top of the one before
 }
 
 func buildWorld(r *rand.Rand, thorough bool) (*world, error) {
@@ -423,35 +433,62 @@ func buildWorld(r *rand.Rand, thorough bool) (*world, error) {
 	for j := 0; j < ntx; j++ {
 		send()
 	}
-	b := w.B
-	b.ClientStateHash = w.State.GetRoot()
-	b.SetStateChangesCount(w.State)
-	b.SetStateStatus(block.StateSuccessful)
-	wd := &world{round: b.Round, blockHash: b.Hash, stateHash: hex.EncodeToString(b.ClientStateHash), count: b.StateChangesCount,
-		prevRoot: hex.EncodeToString(w.Prev.ClientStateHash)}
-	if wd.prevNodes, err = allNodes(w.Prev.ClientState); err != nil {
-		return nil, err
-	}
-	bsc, err := block.NewBlockStateChange(b)
-	if err != nil {
-		if err == state.ErrPartialStateNilNodes {
-			return wd, nil // nothing changed: there is no change set to publish
+	// snap: seal the current block as its generator would and take the change set it publishes
+	snap := func() (*world, error) {
+		b := w.B
+		b.ClientStateHash = w.State.GetRoot()
+		b.SetStateChangesCount(w.State)
+		b.SetStateStatus(block.StateSuccessful)
+		wd := &world{round: b.Round, blockHash: b.Hash, stateHash: hex.EncodeToString(b.ClientStateHash), count: b.StateChangesCount,
+			prevRoot: hex.EncodeToString(w.Prev.ClientStateHash)}
+		bsc, err := block.NewBlockStateChange(b)
+		if err != nil {
+			if err == state.ErrPartialStateNilNodes {
+				return wd, nil // nothing changed: there is no change set to publish
+			}
+			return nil, err
 		}
-		return nil, err
+		j, err := bsc.MarshalJSON()
+		if err != nil {
+			return nil, err
+		}
+		var wire struct {
+			Block string   `json:"block"`
+			Root  string   `json:"root"`
+			Nodes [][]byte `json:"nodes"`
+		}
+		if err := json.Unmarshal(j, &wire); err != nil {
+			return nil, err
+		}
+		wd.nodes, wd.wireBlock, wd.wireRoot = wire.Nodes, wire.Block, wire.Root
+		return wd, nil
 	}
-	j, err := bsc.MarshalJSON()
+	prevNodes, err := allNodes(w.Prev.ClientState)
 	if err != nil {
 		return nil, err
 	}
-	var wire struct {
-		Block string   `json:"block"`
-		Root  string   `json:"root"`
-		Nodes [][]byte `json:"nodes"`
-	}
-	if err := json.Unmarshal(j, &wire); err != nil {
+	wd, err := snap()
+	if err != nil {
 		return nil, err
 	}
-	wd.nodes, wd.wireBlock, wd.wireRoot = wire.Nodes, wire.Block, wire.Root
+	wd.prevNodes = prevNodes
+	// the blocks that follow: a receiver syncs them one on top of the other without saving in between
+	last := wd
+	for k := 0; k < 3 && len(last.nodes) > 0 && r.Intn(4) > 0; k++ {
+		w.NextBlock()
+		for j := 1 + r.Intn(4); j > 0; j-- {
+			send()
+		}
+		nx, err := snap()
+		if err != nil {
+			return nil, err
+		}
+		if len(nx.nodes) == 0 {
+			break
+		}
+		wd.next = append(wd.next, nx)
+		last = nx
+	}
 	return wd, nil
 }
 
@@ -638,6 +675,23 @@ func gen(r *rand.Rand, thorough bool, i int) []string {
 		}
 		emit(v)
 	}
+	if len(wd.next) > 0 {
+		// sync the blocks one after the other: each new state must sit on the previous block's in-memory state
+		first := base
+		if r.Intn(6) == 0 {
+			first.count++ // the first block is rejected: the second then has no computed previous block
+			first.honest = false
+		}
+		emit(first)
+		for _, nx := range wd.next {
+			v := variant{round: nx.round, blkHash: nx.blockHash, stateHash: nx.stateHash, count: nx.count, prevRoot: "@", prevComputed: 1,
+				csBlock: nx.wireBlock, csRoot: nx.wireRoot, nodes: nx.nodes, honest: true}
+			if r.Intn(8) == 0 {
+				r.Shuffle(len(v.nodes), func(a, b int) { v.nodes[a], v.nodes[b] = v.nodes[b], v.nodes[a] })
+			}
+			emit(v)
+		}
+	}
 	return ops
 }
 
@@ -661,7 +715,7 @@ func oracle(ops, outs []string) *corr.Violation {
 		dbSize                              = -1
 		prevSize                            int
 		graph                               = map[string][]string{} // hash -> children, of the receiver's DB and the change set
-		csHashes                            []string
+		csHashes, chainHashes               []string
 	)
 	closed := func(root string) bool {
 		seen := map[string]bool{}
@@ -703,6 +757,13 @@ func oracle(ops, outs []string) *corr.Violation {
 			prevSize++
 			graph[w[2]] = w[5:]
 		case "blk":
+			if len(w) > 4 && w[4] != "@" {
+				// a fresh previous block over the node DB: what earlier blocks merged in memory is gone
+				for _, h := range chainHashes {
+					delete(graph, h)
+				}
+				chainHashes = nil
+			}
 			blkHash, stateHash = w[1], w[2]
 			count, _ = strconv.Atoi(w[3])
 			status, _ = strconv.Atoi(w[6])
@@ -739,6 +800,8 @@ func oracle(ops, outs []string) *corr.Violation {
 			switch {
 			case o == "applied":
 				applied = true
+				chainHashes = append(chainHashes, csHashes...) // stay readable for the blocks synced on top
+				csHashes = nil
 				if mismatch && status < 4 {
 					return mk("mismatched-changeset-accepted", fmt.Sprintf("op %d: accepted although block %v root %v count %d/%d", i, csBlock == blkHash, csRoot == stateHash, nodes, count))
 				}
